@@ -69,6 +69,16 @@ TwinLaw == \A th \in 1..3 : /\ 4 * Length(inst) - th * End(inst) > 4 * SumTo(ins
                              \* counted from the end, the last n-1 cells are all but the first
                              /\ 4 * Length(inst) - th * Start(inst) > 4 * (Length(inst) - Start(inst))
 
+\* reversal (Chop.invert / Grading.inverted): the same cells read from the other end are the instance with p and q
+\* swapped - same count and length, first and last size exchanged, both ratios reciprocal - whichever two of the five
+\* quantities the user gave
+Rev(i) == [a |-> i.a, p |-> i.q, q |-> i.p, n |-> i.n]
+ReverseLaw == LET r == Rev(inst) IN
+              /\ r \in Instances
+              /\ \A k \in 0..(inst.n - 1) : Size(r, k) = Size(inst, inst.n - 1 - k)
+              /\ Length(r) = Length(inst) /\ Start(r) = End(inst) /\ End(r) = Start(inst)
+              /\ Rev(r) = inst
+
 Record == [ a |-> inst.a, p |-> inst.p, q |-> inst.q, n |-> inst.n,
             length |-> Length(inst), start |-> Start(inst), end |-> End(inst),
             c2c |-> <<inst.p, inst.q>>,
